@@ -272,7 +272,7 @@ M.lemma("key_present_after_create", vars=dict(t=Tree, p=SeqStr, k=STR, v=Tree), 
 M.lemma("has_path_extend", vars=dict(t=Tree, p=SeqStr, k=STR), hyps=["has_path(t, p)", "dhas(tget(t, p), k)"],
         goal="has_path(t, p + [k])", induct="p", pattern="has_path(t, p + [k])", ih=[dict(t="t[p[0]]")], properties=["C05"])
 M.lemma("create_then_insert", vars=dict(t=Tree, p=SeqStr, k=STR, s=SeqStr),
-        hyps=["has_path(t, p)", "not dhas(tget(t, p), k)", "len(s) > len(p)", "s[:len(p)] == p", "s[len(p)] == k"],
+        hyps=["has_path(t, p)", "not dhas(tget(t, p), k)", "seq_prefix(p + [k], s)"],
         goal="ins(tset(t, p, k, {}), s) == ins(t, s)", induct="p", pattern="ins(tset(t, p, k, {}), s)",
         ih=[dict(t="t[p[0]]", s="s[1:]")], properties=["C05"])
 
